@@ -1716,6 +1716,29 @@ def x_is_true(I, args, n):
     return IV(r, 32, True)
 
 
+def x_getmntent_r(I, args, n):
+    """getmntent_r(fp, &mnt, buf, buflen): NULL at the end, else the caller's struct filled with NUL-terminated strings
+    that live inside buf; pre: buflen does not exceed buf"""
+    fp, mnt, buf, blen = args
+    o = buf.obj
+    if o is None or o.kind != "arr" or o.n is None:
+        raise Unsupported("getmntent_r buffer")
+    I.oblige(f"getmntent_r: buflen within {o.name}[{o.n}]", "bounds",
+             Z.ULE(bv64(buf.off) + Z.SignExt(32, blen.t), bvc(o.n, 64)) if blen.bits == 32 else Z.ULE(bv64(buf.off) + blen.t, bvc(o.n, 64)))
+    if I.choose(2, "getmntent_r: end/record") == 0:
+        return PV(None)
+    st = mnt.obj
+    if st is None or st.kind != "struct":
+        raise Unsupported("getmntent_r result struct")
+    k = I.ghost.get("records", 0)
+    I.ghost["records"] = k + 1
+    st.fields.clear()
+    st.library_owned = False
+    st.strings_valid = True
+    I.ghost.setdefault("record_objs", []).append(st)
+    return PV(st, 0)
+
+
 def x_fprintf(I, args, n):
     return IV(I.fresh_bv("fprintf", 32), 32, True)
 
@@ -1734,7 +1757,7 @@ EXTERN = {
     "PyLong_FromLong": x_pylong_fromlong, "PySequence_Check": x_seq_check, "PySequence_Size": x_seq_size,
     "PySequence_GetItem": x_seq_getitem, "PyLong_AsLong": x_aslong, "sched_setaffinity": x_int_result("sched_setaffinity"),
     "fprintf": x_fprintf, "getutent": x_record("getutent", "struct utmp"),
-    "getmntent": x_record("getmntent", "struct mntent"), "getnameinfo": x_getnameinfo, "Py_TYPE": x_py_type,
+    "getmntent": x_record("getmntent", "struct mntent"), "getmntent_r": x_getmntent_r, "getnameinfo": x_getnameinfo, "Py_TYPE": x_py_type,
     "strnlen": x_strnlen, "PyUnicode_DecodeFSDefaultAndSize": x_decode_size,
     "socket": x_fd_result("socket"), "close": x_int_result("close"), "ioctl": x_ioctl, "sysinfo": x_sysinfo,
     "strncpy": x_strncpy, "kill": x_int_result("kill"), "sysconf": x_long_result("sysconf"),
@@ -1759,6 +1782,8 @@ def default_field(I, obj, name, ty):
     if k[0] == "ptr":
         if k[1] in ("char",):
             # library-owned string (getmntent & co. return NUL-terminated fields)
+            return Cell(ty, PV(I.new_array(f"{obj.name}.{name}", "char", None, cstr=True, content=None), 0), name)
+        if getattr(obj, "strings_valid", False) and k[1] in ("char",):
             return Cell(ty, PV(I.new_array(f"{obj.name}.{name}", "char", None, cstr=True, content=None), 0), name)
         if getattr(obj, "library_owned", False):
             raise Unsupported(f"pointer field {name} of a library record")
